@@ -108,6 +108,13 @@ func VH_C16_case() {
 			vAssert("C16.search.case_insensitive", vIff(s.Len() == 1, wantQ == want))
 			vAssert("C16.search.at_most_one", s.Len() <= 1)
 		}
+		// every comparison operator sees the canonical search value
+		op := vhOps[vChoice("op", len(vhOps))]
+		so := db.Search(&vCase{}, field, op, q)
+		vAssert("C16.search.op.ok", so.Err() == nil)
+		if so.Err() == nil {
+			vAssert("C16.search.op.on_canonical_values", vIff(so.Len() == 1, vhCmp(op, want, wantQ)))
+		}
 		// the same through an And refinement
 		s2 := db.Search(&vCase{}, "Up", "!=", "\x00never").And(field, "=", q)
 		vAssert("C16.search.and.ok", s2.Err() == nil)
@@ -134,7 +141,7 @@ func VH_C16_unicode() {
 	db := Open(root)
 	LowercaseNames = false
 	vAssert("C16.uni.create", db.Create(&vCase{}, DefaultSchema) == nil)
-	ins := []string{"Émile", "Zé-42", "é", "ÉCOLE", "straße", "ǅ", "ÀÉÎõü", "mixedÄscii"}
+	ins := []string{"Alice", "bob", "Émile", "Zé-42", "é", "ÉCOLE", "straße", "ǅ", "ÀÉÎõü", "mixedÄscii"}
 	in := ins[vChoice("in", len(ins))]
 	field := []string{"Up", "Lo", "Uq", "Nest.Low"}[vChoice("field", 4)]
 	o := &vCase{Up: "x", Lo: "x", Uq: "first"}
@@ -181,6 +188,19 @@ func VH_C16_unicode() {
 				wq = strings.ToUpper(q)
 			}
 			vAssert("C16.uni.search.case_insensitive", (s.Len() == 1) == (wq == want))
+		}
+	}
+	// a pattern is a search value too: it is canonicalised before matching
+	// (inputs hold no character that QuoteMeta escapes)
+	for _, q := range []string{in, strings.ToLower(in), strings.ToUpper(in)} {
+		wq := strings.ToLower(q)
+		if field == "Up" {
+			wq = strings.ToUpper(q)
+		}
+		s := db.Search(&vCase{}, field, "~=", "^"+q+"$")
+		vAssert("C16.uni.regex.ok", s.Err() == nil)
+		if s.Err() == nil {
+			vAssert("C16.uni.regex.case_insensitive", (s.Len() == 1) == (wq == want))
 		}
 	}
 	if field == "Uq" {
